@@ -221,8 +221,8 @@ theorem applyRes_rc (cfg : Cfg) (pol : Policy) (step : Nat) (tickEv : Ev) (dc : 
     simp only [applyRes]
     split
     · simp
-    · simp
-    · split
+    all_goals
+      split
       · split <;> simp
       · simp
   | addCollected buf ev =>
@@ -268,8 +268,8 @@ theorem applyRes_waitersRc (cfg : Cfg) (pol : Policy) (step : Nat) (tickEv : Ev)
     simp only [applyRes]
     split
     · exact h
-    · exact h
-    · split
+    all_goals
+      split
       · split
         · exact h
         · exact h
@@ -333,8 +333,8 @@ theorem applyRes_cmds_rc (cfg : Cfg) (pol : Policy) (step : Nat) (tickEv : Ev) (
     simp only [applyRes]
     split
     · apply app; intro c hc; simp only [List.mem_singleton] at hc; subst hc; exact hex
-    · apply app; intro c hc; simp only [List.mem_singleton] at hc; subst hc; trivial
-    · split
+    all_goals
+      split
       · rename_i hd maxRec hhandler
         split
         · rename_i hle
